@@ -12,6 +12,7 @@ acc() { # id property scopes kinds what
 grep '^fixed:' known_findings.jsonl > known_findings.jsonl.new; mv known_findings.jsonl.new known_findings.jsonl; rm -f known_witnesses/*.jsonl
 ./accept_C02.sh $(ls $D/C02.q $D/C02.t 2>/dev/null) >/dev/null
 acc C01-listen-emptied-intelligent-choice C01 listen '*' "listen: after all children were removed, to_string(intelligent_choice=True) returns an empty <listen/> (schema requires one child)"
+acc C01-ornaments-orphan-accidental-mark C01 ornaments '*' "ornaments: after removals / replacements in a repeated (ornament, accidental-mark*) group an accidental-mark without its ornament is serialised (thorough tier)"
 acc C03-xml-namespace-attributes-renamed C03 accidental-text,directive,formatted-text,formatted-text-id,lyric-language,text-element-data,text-formatting '*' "attribute tables: xml:lang / xml:space are declared as 'lang' / 'space' (lyric-language loses use=required)"
 acc C03-xlink-attributes-undeclared C03 link,opus,part-link,link-attributes '*' "attribute tables: xlink:* references yield attribute objects without a declaration (NotImplementedError constructed, not raised)"
 acc C04-xml-namespace-attributes C04 '*' 'declared-valid-refused,serialised-name-wrong,undeclared-accepted' "xml:lang / xml:space cannot be set under their schema names; 'lang' is accepted and serialised without prefix; 'name' attribute shadowed by the element-name property; xlink attributes unusable (link, opus, part-link)"
@@ -19,7 +20,8 @@ acc C05-whitespace-only-font-family-measure-text C05 font-family,measure-text '*
 acc C05-anyuri-unchecked C05 xs:anyURI '*' "xs:anyURI accepts any string (no lexical check)"
 acc C05-language-pattern-narrower-than-xsd C05 xs:language '*' "xs:language is modelled by the RFC-1766 pattern of xml.xsd: language tags valid for XML Schema (1-8 letter primary tag) are refused"
 acc C05-date-day-of-month C05 yyyy-mm-dd,xs:date '*' "dates are validated by a regular expression only: 2000-02-30 is accepted"
-acc C06-duplicated-sequence-remove-then-add C06 interchangeable,time,credit,lyric '*' "time / interchangeable / credit / lyric: after removing a child of a repeated group (duplicated container), a remaining or re-added child is missing from the ordered view and the output"
+acc C06-duplicated-sequence-remove-then-add C06 interchangeable,time,credit,lyric,key,ornaments,sound '*' "time / interchangeable / credit / lyric / key / ornaments / sound: after removing a child of a repeated group (duplicated container), a remaining or re-added child is missing from the ordered view and the output"
+acc C07-note-ties-then-grace C07 note '*' "note: tie, tie, grace, tie: after the intelligent-choice re-attachment dropped a tie from the matcher, a third tie is accepted although the schema allows two (thorough tier only)"
 acc C06-note-ties-then-grace C06 note '*' "note: add(tie), add(tie), add(grace): the intelligent-choice re-attachment drops one tie from the ordered view and the output"
 acc C10-metronome-refused-serialisation C10 metronome '*' "metronome: a refused to_string changes the later verdict / acceptance"
 acc C10-failed-replace-readds-old-child C10 credit,lyric,listen,notehead-text,harmony,key,note,part-list,score-part,sound,time,interchangeable,ornaments,direction-type '*' "a refused call that went through remove-and-re-add or duplication (different-name replace_child, wrong forward) leaves matcher flags that change later acceptance"
